@@ -27,8 +27,8 @@ MANIFEST_TEXT = (
     "outside them and leaves exactly n values and n vectors of n entries, vector i = column i of LAPACK's result, "
     "hence right eigenvectors of A (nonsym_dynamic_outputs_fresh, nonsym_dynamic_vectors_right), and so does every "
     "history of calls on the same containers (nonsym_dynamic_history).  Round four: the control logic is regenerated "
-    "as tables as well (Gen/C08T.lean) - eig0 (rows, cross-product pairs, lengths, the two updates of the running "
-    "maximum, result selection), orthoComp, eig1 (reduced matrix, the four normalisation sequences, result "
+    "as tables as well (Gen/C08T.lean) - eig0 (rows, cross-product pairs, lengths, and the decision tree of the search "
+    "for the longest cross product, obtained by symbolic execution of the function body), orthoComp, eig1 (reduced matrix, the four normalisation sequences, result "
     "coefficients), the index assembly of both branches of `if (r >= 0)`, the compare-and-swap network of the diagonal "
     "special case, and the LAPACK call sites of fmatrixev.hh and dynmatrixev.hh (orientation of copy and copy-back, "
     "jobz/uplo/jobvl/jobvr, lwork, the size of every buffer); the driver runs the interpreters of these tables and "
@@ -64,7 +64,10 @@ MANIFEST_NOTE = (
     "change of the source that only flips the sign of an eigenvector (operands of a cross product exchanged) or decides "
     "a tie differently (r > 0 for r >= 0) breaks the obligation although the property still holds (translated "
     "expressions are compared up to ring identities, so commuted factors and re-associated sums are fine; index tables "
-    "are compared exactly); it is then "
+    "are compared exactly; since round five the translated pieces are obtained by symbolic execution of the function "
+    "bodies, so the spelling of the control flow - locals, ?: / if / guard clauses, helper lambdas, operand order of "
+    "comparisons, counters versus indices, std algorithms versus loops - does not matter, and the eig0 maximum search is "
+    "tied as a decision tree equivalent for all lengths); it is then "
     "reported after the search as no-failing-input-found.  The diagonal special case is tied as a table equality "
     "(ev3_diag_network_translated) and by running the interpreted tables in the driver.  "
     "Not modelled: LAPACK itself; the float and long double instantiations of the closed form are tied by the oracle and "
@@ -72,7 +75,8 @@ MANIFEST_NOTE = (
     "0 < p1 <= eps the 3x3 code returns the diagonal by design; there the statement is the residual bound, not exact "
     "roots.  Magnitudes exercised: 2^-498..2^498 (1e-150..1e150) for double and long double, 2^-120..2^120 for float, on "
     "all paths; this relies on the max-norm preconditioning of the 2x2 path (fixes/C08_ev2_scaling.patch).")
-TECHNIQUE = ("Lean 4 proof over a generic closed-form model (reals) + translator for formulas, thresholds, the 3x3 "
+TECHNIQUE = ("Lean 4 proof over a generic closed-form model (reals) + translator (C++ subset parser + symbolic executor "
+             "normalising the spelling of control flow) for formulas, thresholds, the 3x3 "
              "determinant, control tables (eig0/orthoComp/eig1/assembly/diagonal network) and LAPACK call sites + differential correspondence (same model over IEEE double on all closed-form paths, bit-exact "
              "on exact inputs) + binary128 property oracle")
 TRANSLATORS = [tr_c08.translate]
@@ -131,15 +135,35 @@ ASSUMPTIONS = [
     "ev3_spectrum (exact roots) excludes by design the nearly diagonal case 0 < p1 <= eps of the scaled matrix, where the "
     "code returns the diagonal as an approximation; ev3_vectors_diag bounds the residual there by sqrt(eps) * max norm",
     "LAPACK (OpenBLAS) is trusted; a recording fake ?syev/?geev is interposed only for the hand-over cases",
-    "control tables (Gen/C08T.lean): the translator understands eig0 with exactly two conditional updates of the running "
-    "maximum, orthoComp with two branches normalising u by the length of a 2-vector, eig1 with the literal branch "
-    "skeleton (absM00 >= absM11, max(..) > 0, >= absM01) and sequences of three (compound) assignments, the assembly "
-    "`if (r >= 0) {eig0; eig1; crossProduct} else {..}`, a diagonal special case made of compare-and-swap steps, "
-    "stack arrays / std::make_unique<double[]> buffers allocated per call with integer size expressions in N/dim; "
-    "anything else (static or thread_local buffers, other statements) is a TranslateError = broken obligation",
+    "translator tolerance (round five): the max-norm preconditioning and the whole eigenvector part of the 2x2 routine, "
+    "crossProduct, eig0, orthoComp, eig1, and the copy loops around the three LAPACK calls are no longer matched as text: "
+    "tr_c08.py parses the function body into a small AST (declarations, assignments incl. compound ones and ++/--, "
+    "if/else, for, return, ?:, lambdas, calls of a fixed list of pure functions / methods, std::swap/copy/copy_n) and "
+    "executes it symbolically along every path; compared / emitted is the resulting state (a decision tree over "
+    "canonical comparison atoms `a < b` / `a <= b` - `>` and `>=` are written with exchanged operands, comparisons are "
+    "never negated, so NaN is decided as in the source - with symbolic values at the leaves).  Hence renamed, hoisted "
+    "or inlined locals, `?:` versus if/else versus guard clauses with early return, helper lambdas called several times, "
+    "`a > b` versus `b < a`, a returned initialiser list versus a local filled entry by entry, running counters versus "
+    "computed indices (also `buf[pos++]`, renamed / exchanged / count-down loop variables), std::copy / std::copy_n "
+    "versus a hand loop give the same generated files.  The copy loops are executed for the concrete orders 1..5 (index "
+    "expressions restricted to + - * over integers, loop variables, N/dim and counters initialised by an integer "
+    "literal) and must produce the same orientation for all of them; the tie to all orders is this restriction, not a "
+    "proof.  eig0: rows, cross products and lengths are identified by value, the search for the longest cross product "
+    "becomes a decision tree (Gen.Sel) that Proofs/C08Tie proves equivalent over the reals to the hand-written maximum "
+    "search for all lengths (rfl if the trees coincide, otherwise all combinations of comparison outcomes, contradictory "
+    "ones closed by linarith) - a search that tests the lengths in another order is accepted, one that decides ties "
+    "differently (`>=`) is not.  3x3 diagonal special case: read literally as a compare-and-swap network if written as "
+    "one; otherwise executed, and every path must end in the state of the network (0,1),(1,2),(0,1) under the same "
+    "comparison outcomes.  Still matched literally: eigenValues2dImpl and eigenValues3dImpl (locals named p, p2, q, p1, "
+    "r, phi; the `q += matrix[i][i] / 3` loop; the clamp), the assembly `if (r >= 0) {eig0; eig1; crossProduct} else {..}` "
+    "with the locals evec / eval, offDiagNorm and its threshold, the declarations of the LAPACK job characters, lwork "
+    "and buffers (stack arrays / std::make_unique<double[]> per call with integer size expressions in N/dim), the four "
+    "entry points, DenseMatrix::determinant rows()==3.  Anything outside the subset or these rules (while loops, range-for, "
+    "static or thread_local buffers, unknown calls, a use before assignment, an undecidable loop bound) is a TranslateError "
+    "= broken obligation, never a guess",
     "the interpreters in Model/C08T.lean are hand-written (core Lean); the line-protocol driver runs them, the theorems "
     "are transferred through Proofs/C08Tie.lean (over the reals: translated expressions identified with the hand-written "
-    "ones by rfl or ring_nf, also inside sqrt; index tables by evaluation)",
+    "ones by rfl or ring_nf, also inside sqrt; index tables by evaluation; the eig0 selection tree semantically, see above)",
     "LAPACK's interface requirements used in lapack_sym_call / lapack_nonsym_call (LWORK >= max(1,3N-1) for ?syev; "
     "LWORK >= max(1,3N), >= 4N with eigenvectors, for ?geev) are taken from the LAPACK documentation",
     "output arguments: their content on entry is treated as part of the input (any content for the fixed-size outputs, "
